@@ -68,6 +68,15 @@ func selectChild(nodeSet NodeSet) Result {
 	return cleanupForwardAxis(result)
 }
 
+func selectSelf(nodeSet NodeSet) Result {
+	// The context node-set may be a caller-supplied variable in any order
+	// (and it is the caller's slice): return a sorted copy.
+	result := make([]store.Cursor, len(nodeSet))
+	copy(result, nodeSet)
+
+	return cleanupForwardAxis(result)
+}
+
 func selectAttributes(nodeSet NodeSet) Result {
 	result := make([]store.Cursor, 0)
 
